@@ -147,10 +147,12 @@ def handle (op : String) (args res : List String) : Option Verdict :=
   | "gc_alt" => some <|
     -- GeoCoords: the bookkeeping of the (zone, northp, x, y) constructor and of SetAltZone around the implementation's own Reverse / Forward
     match args with
-    | [_, _, _, _, _, _, _, _, "E"] => .skip "the constructor throws: judged by the harness against UTMUPS::Forward / Reverse"
-    | [kind, a1, a2, a3, a4, altz, _, _, mz, mn, mE, mN, mg, mk, mlat, mlon, kok, kz, kn, kx, ky, kg, kk] =>
-      match parseI mz, pb mn, parseFs [mE, mN, mg, mk, mlat, mlon], parseI altz, pb kok, parseI kz, pb kn, parseFs [kx, ky, kg, kk] with
-      | some zone, some northp, some [e, n, g, k, lat, lon], some az, some fok, some fz, some fnp, some [fx, fy, fg, fk] =>
+    | [_, _, _, _, _, _, _, _, _, "E"] => .skip "the constructor throws: judged by the harness against UTMUPS::Forward / Reverse"
+    | [kind, a1, a2, a3, a4, altz, _, _, altz2, mz, mn, mE, mN, mg, mk, mlat, mlon, kok, kz, kn, kx, ky, kg, kk, kok2, kz2, kn2, kx2, ky2, kg2, kk2] =>
+      match parseI mz, pb mn, parseFs [mE, mN, mg, mk, mlat, mlon], parseI altz, pb kok, parseI kz, pb kn, parseFs [kx, ky, kg, kk],
+            parseI altz2, pb kok2, parseI kz2, pb kn2, parseFs [kx2, ky2, kg2, kk2] with
+      | some zone, some northp, some [e, n, g, k, lat, lon], some az, some fok, some fz, some fnp, some [fx, fy, fg, fk],
+        some az2, some fok2, some fz2, some fnp2, some [fx2, fy2, fg2, fk2] =>
         let st : GeoState := ⟨zone, northp, e, n, g, k, lat, lon⟩
         -- (a) constructor bookkeeping
         let ctor : Verdict :=
@@ -168,20 +170,29 @@ def handle (op : String) (args res : List String) : Option Verdict :=
             | _, _ => .bad "parse"
         -- (b) SetAltZone
         let fwd : F64 → F64 → Int → Except Err FwdOut := fun _ _ _ => if fok then .ok ⟨fz, fnp, fx, fy, fg, fk⟩ else .error "Forward"
-        let alt : Verdict :=
-          match setAltZone st (copyToAlt st) az fwd, res with
+        let fwd2 : F64 → F64 → Int → Except Err FwdOut := fun _ _ _ => if fok2 then .ok ⟨fz2, fnp2, fx2, fy2, fg2, fk2⟩ else .error "Forward"
+        let cmp (name : String) (m : Except Err AltState) (r : List String) : Verdict :=
+          match m, r with
           | .error _, ["!E"] => .ok
-          | .error er, _ => .bad s!"SetAltZone: model rejects ({er}), impl={res}"
-          | .ok _, ["!E"] => .bad "SetAltZone: impl threw, model accepts"
+          | .error er, _ => .bad s!"{name}: model rejects ({er}), impl={r}"
+          | .ok _, ["!E"] => .bad s!"{name}: impl threw, model accepts"
           | .ok m, [rz, rE, rN, rg, rk] =>
             (match parseI rz, parseFs [rE, rN, rg, rk] with
              | some iz, some [iE, iN, ig, ik] =>
                if iz == m.zone && F64.same iE m.easting && F64.same iN m.northing && F64.same ig m.gamma && F64.same ik m.k then .ok
-               else .bad s!"SetAltZone: impl=({iz},{showF iE},{showF iN}) model=({m.zone},{showF m.easting},{showF m.northing})"
+               else .bad s!"{name}: impl=({iz},{showF iE},{showF iN}) model=({m.zone},{showF m.easting},{showF m.northing})"
              | _, _ => .bad "parse")
           | _, _ => .bad "shape"
+        let alt : Verdict :=
+          match setAltZone st (copyToAlt st) az fwd with
+          | .error er => cmp "SetAltZone" (.error er) res
+          | .ok a1 =>
+            -- the result line is "<first alternate state> ; <second alternate state or !E>"
+            let r1 := res.takeWhile (· != ";")
+            let r2 := (res.dropWhile (· != ";")).drop 1
+            both (cmp "SetAltZone" (.ok a1) r1) (cmp "SetAltZone (second request)" (setAltZone st a1 az2 fwd2) r2)
         both ctor alt
-      | _, _, _, _, _, _, _, _ => .bad "parse"
+      | _, _, _, _, _, _, _, _, _, _, _, _, _ => .bad "parse"
     | _ => .bad "parse"
   | _ => none
 
